@@ -19,14 +19,20 @@ from harness import common as C
 
 RULE = ('cross-sections: tables 2-5 T x 2-5 P x 1-6 wn (1e-40..1e-18 m2, some zeros), written as pickle (bar), HDF5 '
         '(units Pa/bar/atm/mbar/kPa/hPa/MPa/Torr/mmHg/Ba, .h5/.hdf5), Exo-Transmit text; file names with isotopologue '
-        'prefixes and dotted/underscored suffixes; (T,P) interior / outside / node; both interpolation modes. '
+        'prefixes and dotted/underscored suffixes; (T,P) interior / outside / node, and on every loaded object (cross-sections and '
+        'k-tables, each container and mode) its four corner nodes at the object\'s own axis values: the tabulated value itself; '
+        'both interpolation modes. '
         'CIA: pickle .db and HITRAN .cia (single range; per-temperature disjoint ranges with gaps; negative entries). '
         'k-tables: pickle and HDF5 (1-4 g-points). cache: 8-40 op histories over 2-3 directories (one missing) with '
         'pickle/HDF5/Exo files of 3 molecules + a missing one; k-table cache and CIA cache (get / set path, single or list / '
         'add; per directory and pair: no container / .db / .cia / both / several) histories alike; the histories include '
         'configuration by other routes (a parameter file set up with ParameterParser.read + setup_globals carrying path / '
         'xsec_interpolation / xsec_in_memory) and settings taken back (set_interpolation(None), the path key of GlobalCache set '
-        'to None); collision partners (pairOne, pairTwo) of every loaded CIA object. distinct non-trivial = distinct (kind, format/unit, '
+        'to None); drift stream (48 histories per quick run, cross-section and k-table cache): a served object switched with its '
+        'own set_interpolation_mode, GlobalCache()[\'xsec_interpolation\'] written directly, load_opacity(opacity_path=<another '
+        'directory holding other tables and an unreadable file>), with three fixed tails (object switched / global key written, '
+        'then set_interpolation of the value already stored, then the lookup; a load from the other directory of the '
+        'unreadable molecule, then ordinary lookups) - in lockstep with CacheConf.stepY / stepYK; collision partners (pairOne, pairTwo) of every loaded CIA object. distinct non-trivial = distinct (kind, format/unit, '
         'shape, region / history signature) with a non-constant table')
 ASSUMPTIONS = ['pickle / h5py / text I/O return the numbers that were written (containers trusted; files are really '
                'written and really read by the repo loaders)',
@@ -755,6 +761,11 @@ def model_xsec(ctx, fmt, content, mode, T, P):
     return dict(wn=wn, t=t, p=p, x=x, op=d.list())
 
 
+def own_corner_nodes(nP, nT):
+    """(pressure index, temperature index, name) of the four corner nodes of a table"""
+    return [(0, 0, 'Tmin-Pmin'), (0, nT - 1, 'Tmax-Pmin'), (nP - 1, 0, 'Tmin-Pmax'), (nP - 1, nT - 1, 'Tmax-Pmax')]
+
+
 def flat(a):
     return np.asarray(a, float).ravel()
 
@@ -871,6 +882,24 @@ def eval_xsec(ctx, c):
                                     abs_=1e-70)
                     ctx.check_close('opacity(T,P) vs XTab.opacity(dec*(%s))' % fmt, out, md['op'], cs, rel=1e-9,
                                     abs_=floor)
+                # ---- quota: the four corner nodes of the table, at the loaded object's OWN axis values (the pressure a
+                # container hands back after its unit conversion, bit for bit): the tabulated cross-section itself
+                if grids[3].shape == c['x'].shape:
+                    for (i, j, cn) in own_corner_nodes(len(grids[2]), len(grids[1])):
+                        T, P = float(grids[1][j]), float(grids[2][i])
+                        out = flat(o.opacity(T, P))
+                        want = c['x'][i, j] / 1e4
+                        if out.shape != want.shape or not C.close(out, want, rel=1e-9, abs_=floor):
+                            ctx.violation('node-value:%s' % fmt, 'opacity(T,P) at a tabulated (T,P) node of the %s file is '
+                                          'not the tabulated cross-section in SI units' % fmt, full,
+                                          dict(T=T, P=P, mode=mode, node=cn, got=out, want=want))
+                        md = model_xsec(ctx, fmt, content, mode, T, P)
+                        ctx.case(key=(('xsec', key, c['x'].shape, 'own-node:' + cn, mode) if nontrivial else None),
+                                 sample=dict(small, fmt=fmt, mode=mode, T=T, P=P, impl=out[:3]), bucket='xsec:' + key)
+                        ctx.bucket('region:own-node:' + cn)
+                        if md is not None:
+                            ctx.check_close('opacity(T,P) at an own node vs XTab.opacity(dec*(%s))' % fmt, out, md['op'],
+                                            dict(small, fmt=fmt, T=T, P=P, mode=mode, node=cn), rel=1e-9, abs_=floor)
                 o = None
             # ---- the encoders are the harness's writers
             if fmt == 'pickle':
@@ -991,6 +1020,19 @@ def eval_ktab(ctx, c):
                                     wn + tt + ww, cs, rel=1e-12)
                     ctx.check_close('KTable.opacity(T,P) vs KTab.opacity(dec*(%s))' % fmt, out.ravel(), flat(op), cs,
                                     rel=1e-9, abs_=floor)
+                # ---- quota: the corner nodes at the loaded k-table's own axis values: the tabulated coefficients
+                if grids[3].shape == c['k'].shape:
+                    for (i, j, cn) in own_corner_nodes(len(grids[2]), len(grids[1])):
+                        T, P = float(grids[1][j]), float(grids[2][i])
+                        out = np.asarray(o.opacity(T, P), float)
+                        want = c['k'][i, j] / 1e4
+                        ctx.case(key=('ktab', fmt, unit, c['k'].shape, 'own-node:' + cn, mode),
+                                 sample=dict(small, fmt=fmt, T=T, P=P, mode=mode), bucket='ktab:%s:%s' % (fmt, unit))
+                        ctx.bucket('region:own-node:' + cn)
+                        if out.shape != want.shape or not C.close(out.ravel(), want.ravel(), rel=1e-9, abs_=floor):
+                            ctx.violation('node-value:' + fmt, 'opacity(T,P) at a tabulated (T,P) node of the %s file is not '
+                                          'the tabulated k-coefficients in SI units' % fmt, full,
+                                          dict(T=T, P=P, mode=mode, node=cn, got=out.ravel()[:6], want=want.ravel()[:6]))
                 # ---- history predicate: a mode change through OpacityCache must reach k-tables served afterwards
                 if mode == 'linear':
                     OpacityCache().set_interpolation('exp')
@@ -1400,6 +1442,56 @@ def gen_cache_case(rng, k):
     return dict(kind='cache', fs=fs, ops=ops)
 
 
+DRIFT_SCENARIOS = ['object-switched', 'global-written', 'load-other-fails']
+
+
+def gen_drift_case(rng, k):
+    """histories in which the loaded objects and the global interpolation setting drift apart, and loads that name another
+    directory: a cache / k-table-cache history with 1-4 events inserted at random places -
+      ['objMode', m, k]    the object now cached for m switched with its own public set_interpolation_mode(k);
+      ['gcInterp', k|None] GlobalCache()['xsec_interpolation'] written directly (as any code holding GlobalCache can);
+      ['loadOther', p, m]  load_opacity(opacity_path=<directory p>, molecule_filter=[m]); p = len(fs) names the case's `other`
+                           directory: other tables of the molecules and one truncated (unreadable) file, of molecule `bad`
+    - and one of three fixed tails (quota, every run): the served object switched away from the global mode / the global key
+    written behind the cache's back, then set_interpolation of the value ALREADY stored, then the molecule asked for again;
+    a load of `bad` from the other directory (whatever that call does or raises), then ordinary lookups"""
+    isk = (k // 3) % 2 == 1
+    c = gen_kcache_case(rng, k) if isk else gen_cache_case(rng, k)
+    fs, ops = c['fs'], c['ops']
+    nd = len(fs)
+    full_dirs = [i for i, d in enumerate(fs) if d['exists'] and d['files']]
+    if not full_dirs:
+        fs[0] = dict(exists=True, files=[('kpickle' if isk else 'pickle', 'H2O.pickle', 'H2O', 1000 * k + 77),
+                                         ('kpickle' if isk else 'pickle', 'CO2.pickle', 'CO2', 1000 * k + 78)])
+        full_dirs = [0]
+    d0 = full_dirs[int(rng.integers(0, len(full_dirs)))]
+    mols = sorted({f[2] for f in fs[d0]['files']})
+    m = mols[int(rng.integers(0, len(mols)))]
+    bad = CACHE_MOLS[int(rng.integers(0, 3))]
+    c['other'] = dict(bad=bad, seeds={mm: 1000 * k + 900 + i for i, mm in enumerate(CACHE_MOLS) if mm != bad})
+    for _ in range(int(rng.integers(1, 5))):
+        r = rng.random()
+        mm = CACHE_MOLS[int(rng.integers(0, 3))]
+        if r < 0.4:
+            ev = ['objMode', mm, int(rng.integers(0, 2))]
+        elif r < 0.7:
+            ev = ['gcInterp', None if rng.random() < 0.15 else int(rng.integers(0, 2))]
+        else:
+            ev = ['loadOther', int(rng.integers(0, nd + 1)), mm]
+        ops.insert(int(rng.integers(1, len(ops) + 1)), ev)
+    a = int(rng.integers(0, 2))
+    scen = DRIFT_SCENARIOS[k % 3]
+    if scen == 'object-switched':
+        tail = [['setPath', d0], ['setInterp', a], ['get', m], ['objMode', m, 1 - a], ['get', m], ['setInterp', a], ['get', m]]
+    elif scen == 'global-written':
+        tail = [['setPath', d0], ['setInterp', a], ['get', m], ['gcInterp', 1 - a], ['get', m], ['setInterp', 1 - a], ['get', m]]
+    else:
+        tail = [['setPath', d0], ['clear'], ['loadOther', nd, bad]] + [['get', mm] for mm in CACHE_MOLS]
+    c['ops'] = ops + tail
+    c['drift'] = scen
+    return c
+
+
 def eval_cache(ctx, c):
     from taurex.cache import OpacityCache, GlobalCache
     from taurex.cache.ktablecache import KTableCache
@@ -1442,11 +1534,27 @@ def eval_cache(ctx, c):
                 toks += [str(FMT[fmt]), str(fid), C.S(mol), C.S(mol)]
                 fid += 1
         dirs.append(os.path.join(root, 'never_created'))
+        other_dir = None
+        if c.get('other'):
+            # a directory the configured path never names: other tables of the molecules and one unreadable file
+            other_dir = os.path.join(root, 'other_dir')
+            os.makedirs(other_dir)
+            for mol, seed in sorted(c['other']['seeds'].items()):
+                tab = small_ktable(int(seed)) if isk else small_table(int(seed))
+                path = os.path.join(other_dir, mol + '.pickle')
+                (write_kpickle(path, tab, mol) if isk else write_pickle(path, tab))
+                file_ids[path] = fid
+                tables[fid] = tab
+                fid += 1
+            with open(os.path.join(other_dir, c['other']['bad'] + '.pickle'), 'wb') as fh:
+                fh.write(b'\x80\x04\x95\x10')
+            file_ids[os.path.join(other_dir, c['other']['bad'] + '.pickle')] = fid      # (a constructor call on it is logged)
         toks.append(str(len(ops)))
         def opt(v):
             return ['0'] if v is None else ['1', str(int(v))]
         for o in ops:
-            code = ['get', 'setPath', 'setInterp', 'setMem', 'clear', 'add', 'unsetInterp', 'unsetPath', 'parfile'].index(o[0])
+            code = ['get', 'setPath', 'setInterp', 'setMem', 'clear', 'add', 'unsetInterp', 'unsetPath', 'parfile',
+                    'objMode', 'gcInterp', 'loadOther'].index(o[0])
             toks.append(str(code))
             if o[0] in ('get',):
                 toks.append(C.S(o[1]))
@@ -1458,7 +1566,13 @@ def eval_cache(ctx, c):
                 toks += [C.S(o[1]), str(int(o[2]))]
             elif o[0] == 'parfile':
                 toks += opt(o[1]) + opt(o[2]) + opt(o[3])
-        # CacheConf.stepXK / stepX (the cache's own operations: CacheSM.stepK / CacheSM.step)
+            elif o[0] == 'objMode':
+                toks += [C.S(o[1]), str(int(o[2]))]
+            elif o[0] == 'gcInterp':
+                toks += opt(o[1])
+            elif o[0] == 'loadOther':
+                toks += [str(int(o[1])), C.S(o[2])]
+        # CacheConf.stepYK / stepY over stepXK / stepX (the cache's own operations: CacheSM.stepK / CacheSM.step)
         dm = ctx.model().call('c14.kcache' if isk else 'c14.cache', *toks)
 
         def rd_step():
@@ -1483,6 +1597,8 @@ def eval_cache(ctx, c):
         segment = {}                    # since the last clearing op: molecule -> object served
         seg_loads = {}                  # since the last clearing op: molecule -> constructor calls
         cur_interp = None
+        interp_known = True             # False after the global key was written directly, until a mode takes a cache route
+        switched = set()                # id() of objects switched with their own set_interpolation_mode
         cur_path = None
         rlog = []
         sig = []
@@ -1498,10 +1614,30 @@ def eval_cache(ctx, c):
                     r = dict(code=0, id=ids_impl.setdefault(id(obj), len(ids_impl)), mol=obj.moleculeName,
                              mode=MODES.index(obj._interp_mode), inmem=0 if inm is None else (2 if inm else 1), src=src)
                 except Exception as e:
-                    if str(e) != missing_msg:
-                        raise
                     obj = None
                     r = dict(code=1)
+                    if str(e) != missing_msg:
+                        # the scan itself raised (e.g. an unreadable file where the cache should not be looking): judged
+                        # below as a present molecule that is not served; the model says what the step should have been
+                        r = dict(code=4, raised=repr(e)[:120])
+            elif o[0] == 'objMode':
+                if o[1] in oc.opacity_dict:
+                    ob = oc[o[1]]
+                    ob.set_interpolation_mode(MODES[o[2]])
+                    switched.add(id(ob))
+                    ctx.bucket(tag + ':drift:object-mode-switched')
+            elif o[0] == 'gcInterp':
+                GlobalCache()['xsec_interpolation'] = None if o[1] is None else MODES[o[1]]
+                interp_known = False
+                if oc.opacity_dict:
+                    ctx.bucket(tag + ':drift:global-key-written:dict-nonempty')
+            elif o[0] == 'loadOther':
+                target = other_dir if (o[1] >= len(fs) and other_dir) else dirs[min(o[1], len(dirs) - 1)]
+                try:
+                    oc.load_opacity(opacity_path=target, molecule_filter=[o[2]])
+                    ctx.bucket(tag + ':load-other:returned')
+                except Exception as e:
+                    ctx.bucket(tag + ':load-other:raised:' + type(e).__name__)
             elif o[0] == 'setPath':
                 try:
                     cur_path = dirs[o[1]] if o[1] < len(dirs) else dirs[-1]
@@ -1509,14 +1645,18 @@ def eval_cache(ctx, c):
                 except NotADirectoryError:
                     r = dict(code=3)
             elif o[0] == 'setInterp':
+                if interp_known and cur_interp == o[1] and oc.opacity_dict:
+                    ctx.bucket(tag + ':set_interpolation:value-already-stored:dict-nonempty')
                 OpacityCache().set_interpolation(MODES[o[1]])
                 cur_interp = o[1]
+                interp_known = True
             elif o[0] == 'unsetInterp':
                 # the setting taken back to "not configured" (documented default: linear)
                 if oc.opacity_dict:
                     ctx.bucket(tag + ':mode-change:unset:dict-nonempty')
                 OpacityCache().set_interpolation(None)
                 cur_interp = None
+                interp_known = True
             elif o[0] == 'unsetPath':
                 GlobalCache()[pathkey] = None
                 cur_path = None
@@ -1543,6 +1683,7 @@ def eval_cache(ctx, c):
                     pp.setup_globals()
                     if o[2] is not None:
                         cur_interp = o[2]
+                        interp_known = True
                 except NotADirectoryError:
                     r = dict(code=3)
             elif o[0] == 'setMem':
@@ -1557,7 +1698,9 @@ def eval_cache(ctx, c):
                 oc.add_opacity(mo)
             new_loads = rec.log[before:]
             for fn in new_loads:
-                rlog.append((o[1], file_ids[fn]))
+                rlog.append((o[2] if o[0] == 'loadOther' else o[1], file_ids[fn]))
+            # (constructor calls of an explicit load_opacity are the user's, not a request of the cache: logged and compared
+            # with the model, not counted as loads of a lookup)
             r['nlog'] = len(rlog)
             r['keys'] = list(oc.opacity_dict.keys())
             if ms['code'] == 0:
@@ -1587,7 +1730,11 @@ def eval_cache(ctx, c):
                         ctx.violation(vk + 'served-wrong-molecule', 'object served under a different molecule name', full,
                                       dict(step=n, asked=o[1], got=obj.moleculeName))
                     fn = getattr(obj, '_filename', None)
-                    if fn in file_ids:
+                    if fn in file_ids and (not interp_known or id(obj) in switched):
+                        # the user switched this object / wrote the global key directly after the last mode change made
+                        # through the cache: nothing is stated about its mode until a mode takes a cache route again
+                        ctx.bucket(tag + ':unjudged-mode(object switched or global key written directly)')
+                    elif fn in file_ids:
                         want = MODES[cur_interp] if cur_interp is not None else 'linear'
                         if obj._interp_mode != want:
                             ctx.violation(vk + 'interp-stale', 'an opacity served after set_interpolation(%r) has mode %r'
@@ -1599,6 +1746,7 @@ def eval_cache(ctx, c):
                         if not C.close(got, ref, rel=1e-9, abs_=1e-45):
                             ctx.violation(vk + 'interp-not-effective', 'opacity(T,P) of the served object is not the %s '
                                           'interpolation of its table' % want, full, dict(step=n, mol=o[1], got=got, want=ref))
+                    if fn in file_ids:
                         if new_loads and os.path.dirname(fn) != cur_path:
                             ctx.violation(vk + 'loaded-from-wrong-path', 'molecule loaded from a directory that is not the '
                                           'configured ' + pathkey, full, dict(step=n, file=fn, path=cur_path))
@@ -1612,6 +1760,8 @@ def eval_cache(ctx, c):
         ctx.case(key=(tag, ''.join(sig)[:60]), sample=dict(kind=tag, ops=ops[:10], trace=sig[:10]),
                  bucket=tag + ':history')
         ctx.bucket(tag + ':ops', len(ops))
+        if c.get('drift'):
+            ctx.bucket(tag + ':drift-history:' + c['drift'])
         keep = None
 
 
@@ -2023,6 +2173,10 @@ def run(ctx):
     for k in range(ctx.n(50, 1200)):
         eval_ciacache(ctx, gen_ciacache_case(ctx.rng, k))
     malformed(ctx, ctx.n(12, 60))
+    # (round-7 stream after the older ones, whose draws stay as they were) objects / global setting drifted apart, loads
+    # naming another directory
+    for k in range(ctx.n(48, 900)):
+        eval_cache(ctx, gen_drift_case(ctx.rng, k))
 
 
 def replay(ctx, case):
